@@ -26,7 +26,7 @@ RULE = ('random programs: 1-3 nodes (float/int incl. width+sign suffixes, bool, 
 SHARDS = {'quick': 16, 'thorough': 16}
 NCASES = {'quick': 1600, 'thorough': 50000}
 MIN_NONTRIVIAL = {'quick': 600, 'thorough': 20000}
-TIME_CAP = {'quick': 50, 'thorough': 780}
+TIME_CAP = {'quick': 300, 'thorough': 3600}
 REQUIRED_CLASSES = ['edge:zero-in-other-unit', 'edge:zero-same-dimension', 'edge:zero-offset-temperature', 'edge:zero-other-dimension', 'value-zero', 'value-negative', 'value-positive', 'value-false', 'value-true', 'value-none',
                     'value-empty-string', 'value-string', 'modification-typed', 'modification-untyped',
                     'unit-omitted', 'unit-same-as-definition', 'unit-different-prefix', 'unit-compound', 'unit-custom',
